@@ -1198,8 +1198,9 @@ func bitfield(c *Ctx, ro bool) Reply {
 	}
 	var b []byte
 	var exp int64
+	src := "" // the stored value; copied into b only by the first write (GET-only calls never copy a large bitmap)
 	if e != nil {
-		b = []byte(e.s)
+		src = e.s
 		exp = e.expireAt
 	}
 	c.track(k)
@@ -1231,14 +1232,26 @@ func bitfield(c *Ctx, ro bool) Reply {
 		for i := 0; i < bits; i++ {
 			p := off + i
 			bit := uint64(0)
-			if p/8 < len(b) {
-				bit = uint64(b[p/8]>>(7-uint(p%8))) & 1
+			if b != nil {
+				if p/8 < len(b) {
+					bit = uint64(b[p/8]>>(7-uint(p%8))) & 1
+				}
+			} else if p/8 < len(src) {
+				bit = uint64(src[p/8]>>(7-uint(p%8))) & 1
 			}
 			v = v<<1 | bit
 		}
 		return v
 	}
 	setBits := func(off, bits int, v uint64) {
+		if b == nil {
+			need := (off+bits-1)/8 + 1
+			if need < len(src) {
+				need = len(src)
+			}
+			b = make([]byte, need)
+			copy(b, src)
+		}
 		for len(b) <= (off+bits-1)/8 {
 			b = append(b, 0)
 		}
